@@ -2,6 +2,7 @@
 //! C15 (TLS / WebSocket over a simulated duplex transport).
 
 mod c11;
+mod c12;
 mod util;
 
 use simcore::worker::Scenario;
@@ -9,5 +10,6 @@ use simcore::worker::Scenario;
 fn main() {
     let mut scenarios: Vec<Scenario> = Vec::new();
     scenarios.extend(c11::scenarios());
+    scenarios.extend(c12::scenarios());
     simcore::worker::main(&scenarios)
 }
